@@ -254,7 +254,7 @@ func execRoundTrip(c Case) kit.Outcome {
 func TestRoundTrip(t *testing.T) {
 	kit.Check(t, kit.Spec[Case]{Sub: "roundtrip", Quick: 1500, Thorough: 40000,
 		Gen:  func(t *rapid.T) Case { return Case{Cmds: genCmds(t, 12), Chunk: genChunking(t)} },
-		Exec: execRoundTrip})
+		Exec: execRoundTrip, TrackCase: true})
 }
 
 // ---------------------------------------------------------------- layer 2: TCP, end to end
